@@ -239,7 +239,6 @@ void janet_bytecode_movopt(JanetFuncDef *def) {
                     break;
 
                 /* Read A */
-                case JOP_ERROR:
                 case JOP_TYPECHECK:
                 case JOP_JUMP_IF:
                 case JOP_JUMP_IF_NOT:
@@ -270,6 +269,7 @@ void janet_bytecode_movopt(JanetFuncDef *def) {
                     break;
 
                 /* Read D */
+                case JOP_ERROR:
                 case JOP_RETURN:
                 case JOP_PUSH:
                 case JOP_PUSH_ARRAY:
